@@ -138,23 +138,19 @@ impl<Error: Send + 'static> DecodeScheduler<Error> {
 			crate::verif::point("dec.end.abandoned");
 			return Ok(NextStep::End);
 		}
+		// if all of the audio has been decoded, the only thing left to do is to
+		// wait: either the sound finishes playing what is in the ringbuffer (and
+		// the checks above end the thread), or it is sought back into the audio
+		if !self.transport.playing {
+			return self.run_after_end();
+		}
 		// if the frame ringbuffer is full, sleep for a bit
 		if self.frame_producer.is_full() {
 			#[cfg(kira_verif)]
 			crate::verif::point("dec.wait");
 			return Ok(NextStep::Wait);
 		}
-		// check for commands
-		if let Some(loop_region) = self.command_readers.set_loop_region.read() {
-			self.transport
-				.set_loop_region(loop_region, self.sample_rate, self.num_frames);
-		}
-		if let Some(amount) = self.command_readers.seek_by.read() {
-			self.seek_by(amount)?;
-		}
-		if let Some(position) = self.command_readers.seek_to.read() {
-			self.seek_to(position)?;
-		}
+		self.read_commands()?;
 		let frame = self.frame_at_index(self.transport.position)?;
 		self.frame_producer
 			.push(TimestampedFrame {
@@ -169,9 +165,40 @@ impl<Error: Send + 'static> DecodeScheduler<Error> {
 			self.shared.reached_end.store(true, Ordering::SeqCst);
 			#[cfg(kira_verif)]
 			crate::verif::point("dec.end.reached");
-			return Ok(NextStep::End);
+			// keep the decoder around until the sound has finished playing:
+			// a seek can still bring the position back into the audio
+			return Ok(NextStep::Wait);
 		}
 		Ok(NextStep::Continue)
+	}
+
+	/// One step of the decoder thread after the end of the audio was reached.
+	///
+	/// The last frames may still be waiting in the ringbuffer, so the sound can
+	/// be sought back (just like a static sound that is playing its last frames).
+	/// If that happens decoding starts again; otherwise the thread sleeps until
+	/// the sound is stopped or dropped.
+	fn run_after_end(&mut self) -> Result<NextStep, Error> {
+		self.read_commands()?;
+		if !self.transport.playing {
+			return Ok(NextStep::Wait);
+		}
+		self.shared.reached_end.store(false, Ordering::SeqCst);
+		Ok(NextStep::Continue)
+	}
+
+	fn read_commands(&mut self) -> Result<(), Error> {
+		if let Some(loop_region) = self.command_readers.set_loop_region.read() {
+			self.transport
+				.set_loop_region(loop_region, self.sample_rate, self.num_frames);
+		}
+		if let Some(amount) = self.command_readers.seek_by.read() {
+			self.seek_by(amount)?;
+		}
+		if let Some(position) = self.command_readers.seek_to.read() {
+			self.seek_to(position)?;
+		}
+		Ok(())
 	}
 
 	fn frame_at_index(&mut self, index: usize) -> Result<Frame, Error> {
